@@ -400,6 +400,47 @@ class SBytes(Proxy):
     def slen(self):
         return SInt(chunks_len(self.chunks))
 
+    def _split(self, a):
+        """(first a bytes, the rest) for a concrete a >= 0; forks when a blob of symbolic length is cut"""
+        first, rest = [], list(norm_chunks(self.chunks))
+        need = a
+        while need > 0 and rest:
+            c = rest[0]
+            if c[0] == 'b':
+                first.append(c)
+                rest.pop(0)
+                need -= 1
+                continue
+            if c[0] != 'blob':
+                raise EngineEscape('slice through a repetition chunk')
+            n = z3.simplify(c[2])
+            if core.CUR.branch(n >= need):
+                first.extend(lit(byte_of_blob(c[1], j)) for j in range(need))
+                rest[0] = blob(slice_of(c[1], z3.IntVal(need), z3.simplify(n - need)), z3.simplify(n - need))
+                need = 0
+            else:
+                # the blob is shorter than what is asked for: it goes to `first` entirely
+                if len(rest) > 1:
+                    raise EngineEscape('slice across a short blob followed by more data')
+                first.append(c)
+                rest.pop(0)
+                need = 0
+        return tuple(first), tuple(rest)
+
+    def __getitem__(self, k):
+        if isinstance(k, slice):
+            if k.step not in (None, 1):
+                raise EngineEscape('bytes slice step')
+            a = 0 if k.start is None else k.start
+            if type(a) is not int or a < 0 or (k.stop is not None and (type(k.stop) is not int or k.stop < a)):
+                raise EngineEscape('bytes slice with symbolic or negative bounds')
+            _, rest = self._split(a)
+            if k.stop is None:
+                return mk_bytes(rest)
+            first, _ = SBytes(rest)._split(k.stop - a)
+            return mk_bytes(first)
+        raise EngineEscape('bytes indexing')
+
     def byte_at(self, i):
         """BV8 term of byte i (concrete i); valid when i < len"""
         off = 0
